@@ -537,15 +537,25 @@ class Machine:
 
     def eval_const_body(s, st, f):
         bl = blocks_of(f)
-        if len(bl) != 1: return None
-        stmts, term = bl['bb0']
-        if term[0] != 'return' or any(sm[0] not in ('assign', 'nop') for sm in stmts): return None
         loc = {l: st.alloc(UNINIT) for l in itertools.chain(['_0'], f.locals)}
         pf = Frame('mir', fn=f, loc=loc, bb='bb0')
-        for sm in stmts:
-            if sm[0] != 'assign': continue
-            val = s.rvalue(st, pf, sm[2]); root, path = s.resolve(st, pf, sm[1]); s.store(st, root, path, val)
-        return st.heap[loc['_0']]
+        bb = 'bb0'
+        for _ in range(16):
+            stmts, term = bl[bb]
+            if any(sm[0] not in ('assign', 'nop') for sm in stmts): return None
+            for sm in stmts:
+                if sm[0] != 'assign': continue
+                val = s.rvalue(st, pf, sm[2]); root, path = s.resolve(st, pf, sm[1]); s.store(st, root, path, val)
+            if term[0] == 'return': return st.heap[loc['_0']]
+            if term[0] != 'call': return None
+            # a const fn of the standard library with a model that returns at once (Duration::from_millis(500), ...)
+            _, dest, callee, argops, ret, unw = term
+            args = [s.operand(st, pf, a) for a in argops]
+            outs = s.env.call(s, st, None, callee, args)
+            if not outs or len(outs) != 1 or outs[0][0] != 'ret' or ret is None: return None
+            root, path = s.resolve(st, pf, dest); s.store(st, root, path, outs[0][2])
+            pf.bb = bb = ret
+        return None
 
     def operand(s, st, fr, op):
         k = op[0]
